@@ -34,7 +34,7 @@ def gsc_tok(spec, stack_layer):
     elif k == "SingularProblemEvalLimitReached":
         inner = f"EL {g['limit']}"
     elif k == "FitnessEvalLimitReached":
-        w = {"root": [1] + [0] * (nlev - 1), "equal": [1] * nlev, "list": [1.0, 0.5, 0.25][:nlev]}[g["weights"]]
+        w = {"root": [1] + [0] * (nlev - 1), "equal": [1] * nlev, "list": [1.0, 0.5, 0.25, 0.125][:nlev]}[g["weights"]]
         inner = f"W {g['limit']} {len(w)} " + " ".join(fr(x) for x in w)
     elif k == "NoActiveNonrootDemes":
         inner = f"NAN {g['n']}"
@@ -516,8 +516,13 @@ def refine_specs(specs):
 def _refine_worker(args):
     """one traced run turned into model lines (runs in a pool process); returns plain data"""
     spec, pid = args
+    from .common import RunTimeout, run_limit
+
     try:
-        run, lines, expect, kinds = refine_run(spec)
+        with run_limit():
+            run, lines, expect, kinds = refine_run(spec)
+    except RunTimeout as ex:
+        return {"status": "crash", "impl": f"run did not terminate: {ex}", "tb": ""}
     except Exception as ex:
         import traceback
 
